@@ -27,7 +27,7 @@ __all__ = ["ArrayMap", "PerCPUArrayMap"]
 from collections.abc import Sequence
 from itertools import chain
 from mmap import mmap
-from struct import pack, pack_into, unpack_from
+from struct import calcsize, pack, pack_into, unpack_from
 
 from .bpf import MapFlags, MapType, create_map, lookup_elem, update_elem
 from .ebpf import Expression, FuncId, Map, MemoryDesc, fmtsize
@@ -138,15 +138,21 @@ class ArrayMap(Map):
                     if isinstance(v, ArrayGlobalVarDesc) and v.map is self \
                             and k not in unique:
                         # variables with several elements are aligned
-                        # like one of them (atomic adds need that)
-                        align = fmtsize(v.fmt[-1]) if isinstance(v.fmt, str) \
-                            else fmtsize(v.fmt)
+                        # like the widest of them (atomic adds need that)
+                        if isinstance(v.fmt, str) and v.fmt != "x":
+                            align = max(calcsize(c) for c in v.fmt
+                                        if not c.isdigit()
+                                        and c not in "@=<>! ")
+                        else:
+                            align = fmtsize(v.fmt)
                         collection.append(
                             ((align, fmtsize(v.fmt)), prog, k))
                         unique.add(k)
         collection.sort(key=lambda t: t[0], reverse=True)
         position = 0
-        for (_, size), prog, name in collection:
+        for (align, size), prog, name in collection:
+            # sizes need not be multiples of the alignment ("<HI")
+            position = (position + align - 1) & -align
             prog.__dict__[name] = position
             position += size
         position = ((position + 7) // 8) * 8
